@@ -10,7 +10,10 @@ PROP = "C17"
 RULE = (
     "Engine-A programs printed with every subform on its own line; exactly one evaluated leaf is replaced by a raising form: "
     "(BOOM) itself, (wrap (BOOM)) where wrap is a user macro passing its argument through, or (mboom), a macro whose template "
-    "contains the raising call; one variant per leaf position (all positions of each program are tried). The reference interpreter "
+    "contains the raising call, or (mshared), a macro that splices one Symbol object (built once at compile time, naming an "
+    "undefined variable) into every expansion - placed at one position, and at pairs of positions of which the reference says exactly "
+    "one is evaluated (the shared atom must carry each expansion site's own line); one variant per leaf position (all positions of "
+    "each program are tried). The reference interpreter "
     "tells whether control reaches the form and whether the exception escapes; then the innermost traceback frame belonging to the "
     "program's file must report the line of the raising form (a single-line form, so its span is one line; for the template case "
     "the line of the macro call). Covers forms nested in statement-lifted constructs, function bodies, lambdas, both comprehension "
@@ -18,7 +21,9 @@ RULE = (
     "statement-producing construct or inside a function/comprehension; distinct by (source)"
 )
 ASSUMPTIONS = ["reference interpreter decides reachability; only cases where it says the BOOM exception escapes are judged"]
-PRELUDE = "(defmacro wrap [x] `(do 1 ~x))\n(defmacro mboom [] '(BOOM))\n"
+PRELUDE = ("(defmacro wrap [x] `(do 1 ~x))\n(defmacro mboom [] '(BOOM))\n"
+           # one Symbol object, built once, spliced into every expansion of mshared: the raising form is that shared atom
+           "(eval-and-compile (setv _SHARED (hy.models.Symbol \"UNDEFINED_SHARED_NAME\")))\n(defmacro mshared [] `(do 1 ~_SHARED))\n")
 NAME = "vfprog17"
 
 
@@ -67,6 +72,27 @@ def leaf_paths(x, path=()):
                 yield from leaf_paths(y, path + (i,))
 
 
+def catches_exception(x):
+    if isinstance(x, list):
+        if x and x[0] == "try":
+            if any((not h[1]) or "Exception" in h[1] for h in x[2]):
+                return True
+        if x and x[0] == "with":
+            if any(len(m) > 3 and m[3] for m in x[1]):
+                return True  # a suppressing manager swallows it too
+        return any(catches_exception(y) for y in x)
+    return False
+
+
+def boom_paths(x, path=()):
+    if isinstance(x, list):
+        if x and x[0] == "boom":
+            yield path
+            return
+        for i, y in enumerate(x):
+            yield from boom_paths(y, path + (i,))
+
+
 def put(prog, path, node):
     prog = copy.deepcopy(prog)
     t = prog
@@ -106,15 +132,47 @@ def check_case(case):
         c = P.Compiled(prog, mode, name=NAME, multiline=True, prelude=PRELUDE)
     except SyntaxError:
         return None
-    text = {"plain": "(BOOM)", "macro-arg": "(wrap (BOOM))", "macro-template": "(mboom)"}
+    text = {"plain": "(BOOM)", "macro-arg": "(wrap (BOOM))", "macro-template": "(mboom)", "shared-atom": "(mshared)"}
     variant = next(v for v in text if '["boom", "%s"]' % v in json.dumps(prog))
     idx = c.src.find(text[variant], len(PRELUDE))
-    if idx < 0 or c.src.find(text[variant], idx + 1) >= 0:
+    if idx < 0:
+        return None
+    idx2 = c.src.find(text[variant], idx + 1)
+    if variant == "shared-atom" and idx2 >= 0:
+        # two expansion sites of the macro that splices the shared atom: exactly one of them is reached
+        if c.src.find(text[variant], idx2 + 1) >= 0:
+            return None
+        sites = [pth for pth in boom_paths(prog)]
+        if len(sites) != 2:
+            return None
+        alone = []
+        for k in (0, 1):
+            try:
+                alone.append(P.interpret(put(prog, sites[1 - k], ["lit", 0]), mode)["exc"] == "XBOOM:0")
+            except Exception:
+                return None
+        if alone == [False, True]:
+            idx = idx2
+        elif alone != [True, False]:
+            return None
+    elif idx2 >= 0:
         return None
     want = 1 + c.src[:idx].count("\n")
-    out = c.run()
+    try:
+        out = c.run()
+    except NameError as e:
+        if variant != "shared-atom":
+            raise
+        out = dict(exception=e)
     exc = out.get("exception")
-    if not isinstance(exc, P.XBOOM):
+    if variant == "shared-atom":
+        # the shared atom raises NameError, which (unlike the reference's exception) handlers for Exception and bare
+        # handlers catch: programs with such handlers, or an exception raised while another was handled, are not judged
+        if catches_exception(prog) or getattr(exc, "__context__", None) is not None:
+            return None
+        if not (isinstance(exc, NameError) and "UNDEFINED_SHARED_NAME" in str(exc)):
+            return None  # caught by a handler of the program (Exception catches NameError, unlike the reference's exception)
+    elif not isinstance(exc, P.XBOOM):
         return None  # a different (unordered-sibling) outcome; not judged here
     frames = [f for f in traceback.extract_tb(exc.__traceback__) if f.filename == "<%s>" % NAME]
     if not frames:
@@ -130,12 +188,47 @@ def shard(ctx):
     from hypothesis import strategies as st
 
     strat = st.tuples(G.program(budget=30 if ctx.quick else 50, depth=4), st.sampled_from(["module", "function"]),
-                      st.sampled_from(["plain", "plain", "macro-arg", "macro-template"]))
+                      st.sampled_from(["plain", "plain", "macro-arg", "macro-template", "shared-atom", "shared-atom"]))
 
     def one(t):
         prog, mode, variant = t
         seen = set()
-        for path in list(leaf_paths(prog)):
+        paths = list(leaf_paths(prog))
+        if variant == "shared-atom":
+            # pairs of sites: an earlier (in source order) expansion that is never evaluated, and a later one that raises -
+            # and the other way round; single sites as well
+            try:
+                base = P.interpret(prog, mode)
+            except Exception:
+                return
+            reach = {}
+            for path in paths:
+                try:
+                    reach[path] = P.interpret(put(prog, path, ["boom", variant]), mode)["exc"] == "XBOOM:0"
+                except Exception:
+                    reach[path] = None
+            live = [p_ for p_ in paths if reach[p_] is True]
+            dead = [p_ for p_ in paths if reach[p_] is False]
+            # the informative order is "never-evaluated site first": the first expansion is the one that would stamp its
+            # line on a shared atom
+            first = [(d, l) for l in live for d in dead if d < l]
+            pairs = first[:: max(1, len(first) // 10)][:10] + [(d, l) for d in dead[:2] for l in live[:2] if d > l][:2]
+            for d, l in pairs:
+                if ctx.out_of_time():
+                    return
+                p2 = put(put(prog, d, ["boom", variant]), l, ["boom", variant])
+                try:
+                    if P.interpret(p2, mode)["exc"] != "XBOOM:0" or P.interpret(put(prog, d, ["boom", variant]), mode)["exc"] == "XBOOM:0":
+                        continue
+                except Exception:
+                    continue
+                src = P.wrap_source(p2, mode, True)
+                ctx.case(key=src, nontrivial=True, cls=["variant:shared-atom", "two-expansion-sites:" + ("unreached-one-first" if d < l else "unreached-one-last")], sample=src)
+                r = check_case(dict(prog=p2, mode=mode))
+                if r is not None and r[0] not in seen:
+                    seen.add(r[0])
+                    ctx.fail(dict(prog=p2, mode=mode), r[0], r[1])
+        for path in paths:
             if ctx.out_of_time():
                 return
             p2 = put(prog, path, ["boom", variant])
@@ -154,7 +247,7 @@ def shard(ctx):
                 seen.add(r[0])
                 ctx.fail(dict(prog=p2, mode=mode), r[0], r[1])
 
-    ctx.hyp(strat, one, ctx.per_shard(200, 20000), "programs")
+    ctx.hyp(strat, one, ctx.per_shard(110, 20000), "programs")
 
 
 def shrink(case, same, budget):
